@@ -173,3 +173,39 @@ def option_edges(body, call_bb):
     if some_t is None or none_t is None or some_t == none_t:
         return None
     return some_t, none_t
+
+
+def closure_args(F, body, t):
+    """Closure bodies passed (by value or by reference) as arguments of the call `t`."""
+    out = []
+    for a in t['args']:
+        for st in trace(body, a):
+            if st['kind'] == 'rv' and st['rv']['k'] == 'agg' and st['rv'].get('ak') == 'closure':
+                cb = F.body(st['rv']['closure'])
+                if cb is not None:
+                    out.append(cb)
+    return out
+
+
+def op_sites(F, body, pred, depth=3):
+    """Blocks of `body` at which an operation satisfying pred(callee_path, term) happens: a direct call, or a call
+    (for_each, fold, map ...) that is handed a closure whose body performs the operation (transitively)."""
+    def performs(cb, d):
+        for bb, t in cb.calls():
+            if pred(callee_path(t) or '', t):
+                return True
+            if d > 0 and any(performs(c, d - 1) for c in closure_args(F, cb, t)):
+                return True
+        return False
+    out = []
+    for bb, t in body.calls():
+        if pred(callee_path(t) or '', t):
+            out.append(bb)
+        elif any(performs(c, depth) for c in closure_args(F, body, t)):
+            out.append(bb)
+    return out
+
+
+def frame_op(name):
+    """Predicate: the Frame arithmetic-assignment operator `name` (add_assign, mul_assign ...)."""
+    return lambda p, t: p.endswith('::' + name) and 'frame::Frame' in p
